@@ -87,7 +87,15 @@ def replay(rec: Dict[str, Any]) -> List[Tuple[str, Dict[str, Any], str]]:
     bad: List[str] = []
     try:
         if rec["route"] == "document":
-            if variant % 3 == 0:
+            if variant % 5 in (3, 4):
+                # the patch document as JSON text / in a file, its paths spelled with \\uXXXX escapes (six plain characters each once the
+                # JSON text is decoded): the same patch as the list of operations it spells
+                import io
+
+                spelled = [dict(d, path=escaped_spelling(d["path"])) for d in given]
+                ptext = json.dumps(spelled)
+                patch = JSONPatch(ptext if variant % 5 == 3 else io.StringIO(ptext))
+            elif variant % 3 == 0:
                 # the same operations spelled with \\uXXXX escapes, after a patch with other decoding options was built
                 # from the same texts (options are per patch, nothing may be remembered between patches)
                 spelled = [dict(d, path=escaped_spelling(d["path"])) for d in given]
@@ -161,7 +169,7 @@ def replay(rec: Dict[str, Any]) -> List[Tuple[str, Dict[str, Any], str]]:
                 break
             if canon_dicts(patch.asdicts()) != pristine_now:
                 bad.append("apply-changed-the-patch")
-            elif canon_dicts(given) != pristine and not (rec["route"] == "document" and variant % 3 == 0):
+            elif canon_dicts(given) != pristine and not (rec["route"] == "document" and (variant % 3 == 0 or variant % 5 in (3, 4))):
                 bad.append("apply-changed-callers-list")
             elif out is not None:
                 mine = containers(out, set())
